@@ -140,7 +140,7 @@ func modeObs(err error, input any) map[string]any {
 }
 
 func runC12(c hx.Case) any {
-	s, err := parseSchema(c["schema"])
+	s, err := caseSchema(c)
 	if err != nil {
 		return map[string]any{"kind": "schema-unmarshal-error", "err": err.Error()}
 	}
